@@ -346,7 +346,7 @@ def generate(rng, tier, run):
         z = rng.random()
         if z < 0.07:
             ops.append(['set_dir', rng.choice(layout['dirspecs']), rng.random() < 0.8,
-                        rng.choice(['new', 'reuse', 'reuse', 'assign'])])
+                        rng.choice(['new', 'reuse', 'reuse', 'assign', 'new-path'])])
         elif z < 0.09:
             d = rng.choice(dirs_for_cwd)
             ops.append(['chdir', d])
@@ -487,7 +487,12 @@ def execute(program):
             if kind == 'set_dir':
                 dirspec, strict = op[1], op[2]
                 mode = op[3] if len(op) > 3 else 'new'
-                if mode == 'new' or l2t is None:
+                dirarg = dirspec
+                if mode == 'new-path':
+                    import pathlib
+                    dirarg = pathlib.PurePosixPath(dirspec)       # os.PathLike directory
+                    l2t = RecordingL2T()
+                elif mode == 'new' or l2t is None:
                     l2t = RecordingL2T()
                     mode = 'new'
                 if mode == 'assign':
@@ -497,9 +502,9 @@ def execute(program):
                 else:
                     with mount:
                         if strict and opi % 2:
-                            l2t.set_tex_input_directory(dirspec)          # strict_input defaults to True
+                            l2t.set_tex_input_directory(dirarg)          # strict_input defaults to True
                         else:
-                            l2t.set_tex_input_directory(dirspec, strict_input=strict)
+                            l2t.set_tex_input_directory(dirarg, strict_input=strict)
                 stats.inc('op:set_dir-' + mode)
                 trace.append(['set_dir', dirspec, strict, mode])
                 continue
